@@ -149,6 +149,9 @@ def gen_inputs(ctx, fmt, v, n):
             t = _overflow_edge(fmt, rng)
             if t is not None:
                 out.append(t)
+        # z at the top of the range with a small product that is a (near-)half-integer multiple of ulp(z) of the opposite
+        # sign: the sum ties / almost ties in the last binade and every auxiliary of the 2Sums brushes the overflow threshold
+        out.extend(_z_at_top(fmt, rng, max(8, n // 8)))
     for i in range(n - len(out)):
         r = rng.random()
         if r < 0.35:
@@ -168,6 +171,30 @@ def gen_inputs(ctx, fmt, v, n):
         else:
             out.append(tuple(fpx.directed_patterns(rng, fmt, nargs, lo, hi)))
     return out
+
+
+def _z_at_top(fmt, rng, count):
+    p, ew, w = fpx.FMT[fmt]
+    bias = (1 << (ew - 1)) - 1
+    emax_f = (1 << ew) - 2
+    top = fpx.pattern(fmt, 0, emax_f, (1 << (p - 1)) - 1)          # largest
+    sign = 1 << (w - 1)
+    res = []
+    for _ in range(count):
+        zb = top - rng.choice([0, 0, 0, 1, 2, 3, (1 << (p - 1)) - 1, rng.randrange(0, 1 << (p - 1))])
+        zs = rng.getrandbits(1)
+        m = rng.choice([1, 3, 5, 7, 2, 4, 9, 2 * rng.randrange(0, 40) + 1])     # product = m/2 ulp(largest) = m * 2^(emax - p)
+        # x = +-m (exact small integer), y = 2^(emax_unbiased - p): pattern exponent field emax_f - p
+        xb = fpx.round_ne(Fraction(m), fmt)
+        yb = fpx.pattern(fmt, 0, max(1, emax_f - p), 0)
+        if rng.random() < 0.3:
+            xb += rng.choice([1, 2, 1 << (p // 2)])      # break the tie slightly
+        ps = 1 - zs if rng.random() < 0.8 else zs        # mostly opposite sign to z
+        t = (xb | (sign if ps else 0), yb, zb | (sign if zs else 0))
+        x, y, z = (fpx.to_fraction(b, fmt) for b in t)
+        if fpx.is_finite(fpx.round_ne(x * y, fmt), fmt) and fpx.is_finite(fpx.round_ne(x * y + z, fmt), fmt):
+            res.append(t)
+    return res
 
 
 def _overflow_edge(fmt, rng):
